@@ -27,9 +27,19 @@ What is abstracted
   `dropped` and ghost lists `falsePos` / `missed` saying when the answer deviated, so that C01's
   hypothesis "the decision is still remembered" is an explicit predicate of the history.
 
+* **Stress relief.**  Whether the node is stressed is the state bit `stressed`, switched by
+  `Op.stress` (the stress *level* computation is C15).  While stressed the router hands every span
+  to `ProcessSpanImmediately` instead of `AddSpan` (`route.go processEvent`); its deterministic
+  keep/drop answer is the parameter `Params.stressDecide`.  The ghost list `mixed` records the
+  traces for which that path made a decision while spans of the trace were still buffered — C01's
+  hypothesis "stress relief does not switch on while the trace is buffered" is `t ∉ mixed`.
+* **Resize.**  Every reload calls `cuckooSentCache.Resize` with the configured kept size; `Op.resize c`
+  is a reload that changes it: each worker keeps its newest `min(len, c)` kept records, order
+  preserved (`resizeKept`); `c = 0` is refused by `lru.New` and changes nothing.
+
 Span ids are assigned by the model in arrival order (`nextId`); the harness numbers arrivals the
-same way.  Ghost fields (`accepted`, `decisions`, `discarded`, `missed`, `falsePos`, `everDry`,
-`everWet`) never influence the non-ghost part of a step.
+same way.  Ghost fields (`accepted`, `decisions`, `discarded`, `stressDropped`, `missed`, `mixed`,
+`falsePos`, `everDry`, `everWet`, `everStressed`) never influence the non-ghost part of a step.
 -/
 namespace Refinery.Model.Collector
 
@@ -66,6 +76,7 @@ structure Fwd where
   dry : Bool                -- `GetIsDryRun()` when it was forwarded
   marker : Option Bool      -- `meta.refinery.dryrun.kept`
   late : Bool               -- forwarded by `dealWithSentTrace`
+  stress : Bool := false    -- forwarded by `ProcessSpanImmediately` (`meta.stressed`)
   deriving Repr, DecidableEq
 
 /-- ghost: one `makeDecision` call -/
@@ -74,16 +85,19 @@ structure DecRec where
   keep : Bool
   rate : Nat
   dry : Bool                -- `GetIsDryRun()` when `send` ran
+  stress : Bool := false    -- made by `ProcessSpanImmediately` (stress relief), not by the sampler
   deriving Repr, DecidableEq
 
 structure Params where
   decide : Nat → Nat → Decision      -- generation → trace → decision
   owner : Nat → Nat                  -- trace → worker
-  cap : Nat                          -- kept-decision LRU capacity per worker
+  cap : Nat                          -- initial kept-decision LRU capacity per worker
+  stressDecide : Nat → Decision := fun _ => { keep := true, rate := 1 }   -- `StressRelief.GetSampleRate`
 
 inductive Op where
-  /-- a span reaches its owning worker (`processSpan`); `filt` = answer of the dropped half of the
-  decision record for this trace id at this moment (only consulted when the trace is not buffered) -/
+  /-- a span reaches the collector: its owning worker's `processSpan`, or `ProcessSpanImmediately`
+  while stressed; `filt` = answer of the dropped half of the decision record for this trace id at
+  this moment (only consulted when the decision record is looked up) -/
   | span (trace : Nat) (root : Bool) (client : Nat) (filt : Bool)
   /-- tick / ejection decides buffered trace `t` (`makeDecision` + `send`) -/
   | decide (trace : Nat)
@@ -91,6 +105,10 @@ inductive Op where
   | drain
   /-- config reload: rules generation and DryRun -/
   | reload (gen : Nat) (dry : Bool)
+  /-- config reload that sets the kept-decision capacity per worker -/
+  | resize (cap : Nat)
+  /-- stress relief switches on / off -/
+  | stress (on : Bool)
   deriving Repr, DecidableEq
 
 structure St where
@@ -102,17 +120,22 @@ structure St where
   dryRun : Bool := false
   gen : Nat := 0
   nextId : Nat := 0
+  cap : Nat := 1                     -- kept records per worker in force
+  stressed : Bool := false
   -- ghost
   accepted : List SpanRec := []
   decisions : List DecRec := []
   discarded : List SpanRec := []     -- spans dropped (by a drop decision or as late spans of a dropped trace)
-  missed : List Nat := []            -- a span of an already decided trace found no record and was buffered anew
+  stressDropped : List SpanRec := [] -- spans dropped by `ProcessSpanImmediately` (ignores dry run)
+  missed : List Nat := []            -- a span of an already decided trace found no record (buffered / decided anew)
+  mixed : List Nat := []             -- stress relief decided the trace while spans of it were buffered
   falsePos : List Nat := []          -- the dropped filter claimed an id that was never recorded as dropped
   everDry : Bool := false            -- DryRun was on at some point
   everWet : Bool := false            -- DryRun was off at some point
+  everStressed : Bool := false       -- stress relief was on at some point
   deriving Repr
 
-def init (dry : Bool) : St := { dryRun := dry, everDry := dry, everWet := !dry }
+def init (dry : Bool) (cap : Nat) : St := { dryRun := dry, everDry := dry, everWet := !dry, cap := cap }
 
 /-- `tempSampleRate` of `mergeTraceAndSpanSampleRates`: absent/zero client rate counts as 1 -/
 def clientOr1 (c : Nat) : Nat := if c < 1 then 1 else c
@@ -133,14 +156,22 @@ def lruTouch (l : List (Nat × Nat)) (t : Nat) : List (Nat × Nat) :=
 
 /-- hashicorp LRU `Add` into the cache of `t`'s owner: front insert (replacing an existing entry),
 then evict that worker's least recently used entry when it holds more than `cap`. -/
-def lruAdd (P : Params) (l : List (Nat × Nat)) (t r : Nat) : List (Nat × Nat) :=
+def lruAdd (P : Params) (cap : Nat) (l : List (Nat × Nat)) (t r : Nat) : List (Nat × Nat) :=
   let l1 := (t, r) :: l.filter (fun e => e.1 != t)
   let mine := l1.filter (fun e => P.owner e.1 == P.owner t)
-  if mine.length > P.cap then
+  if mine.length > cap then
     match mine.getLast? with
     | some v => l1.filter (fun e => e.1 != v.1)
     | none => l1
   else l1
+
+/-- `cuckooSentCache.Resize` in every worker: walking from the most recent entry, an entry survives
+iff fewer than `c` entries of the same worker precede it (`seen` = the entries walked so far). -/
+def resizeKept (P : Params) (c : Nat) : List (Nat × Nat) → List (Nat × Nat) → List (Nat × Nat)
+  | [], _ => []
+  | e :: rest, seen =>
+    if (seen.filter (fun x => P.owner x.1 == P.owner e.1)).length < c then e :: resizeKept P c rest (e :: seen)
+    else resizeKept P c rest (e :: seen)
 
 def lateFwd (s : St) (sp : SpanRec) (r : Nat) : Fwd :=
   { sid := sp.id, trace := sp.trace, client := sp.client, rate := fwdRate sp.client r s.dryRun,
@@ -185,7 +216,7 @@ def decideT (P : Params) (s : St) (t : Nat) : St :=
     if d.keep then
       { s with buf := s.buf.filter (fun sp => sp.trace != t),
                decisions := s.decisions ++ [rec_],
-               kept := lruAdd P s.kept t (d.rate % 4294967296),
+               kept := lruAdd P s.cap s.kept t d.rate,
                toSend := s.toSend ++ [{ trace := t, spans := spans, keep := true, rate := d.rate, reason := d.reason }] }
     else if s.dryRun then
       { s with buf := s.buf.filter (fun sp => sp.trace != t),
@@ -208,16 +239,66 @@ def drainOne (s : St) : St :=
   | [] => s
   | sd :: rest => { s with toSend := rest, out := s.out ++ sd.spans.map (sendFwd s sd) }
 
-def reloadCfg (s : St) (g : Nat) (dry : Bool) : St :=
-  { s with gen := g, dryRun := dry, everDry := s.everDry || dry, everWet := s.everWet || !dry }
+/-- the reload branch of `collect()` (samplers cleared, `Resize` with the size in force) + the options
+read at use time -/
+def reloadCfg (P : Params) (s : St) (g : Nat) (dry : Bool) : St :=
+  { s with gen := g, dryRun := dry, everDry := s.everDry || dry, everWet := s.everWet || !dry,
+           kept := resizeKept P s.cap s.kept [] }
+
+/-- a reload whose `SampleCache.KeptSize` gives `c` records per worker (`lru.New 0` fails: no change) -/
+def resizeCfg (P : Params) (s : St) (c : Nat) : St :=
+  if c = 0 then s else { s with cap := c, kept := resizeKept P c s.kept [] }
+
+def setStress (s : St) (on : Bool) : St :=
+  { s with stressed := on, everStressed := s.everStressed || on }
+
+def stressFwd (s : St) (sp : SpanRec) (r : Nat) : Fwd :=
+  { sid := sp.id, trace := sp.trace, client := sp.client, rate := fwdRate sp.client r s.dryRun,
+    dry := s.dryRun, marker := none, late := false, stress := true }
+
+/-- `ProcessSpanImmediately` (the router calls it instead of `AddSpan` while stressed) -/
+def stressArrive (P : Params) (s : St) (t : Nat) (root : Bool) (client : Nat) (filt : Bool) : St :=
+  let sp : SpanRec := { id := s.nextId, trace := t, root := root, client := client }
+  if filt then
+    -- CheckSpan: a dropped record → not kept (dry run is ignored)
+    { s with nextId := s.nextId + 1, accepted := s.accepted ++ [sp],
+             falsePos := if s.dropped.contains t then s.falsePos else t :: s.falsePos,
+             stressDropped := s.stressDropped ++ [sp] }
+  else
+    match s.kept.find? (fun e => e.1 == t) with
+    | some e =>
+      -- CheckSpan: a kept record → forwarded with the recorded rate
+      { s with nextId := s.nextId + 1, accepted := s.accepted ++ [sp],
+               kept := lruTouch s.kept t,
+               out := s.out ++ [stressFwd s sp e.2] }
+    | none =>
+      -- no record: deterministic stress decision, recorded for later spans
+      let d := P.stressDecide t
+      let rec_ : DecRec := { trace := t, keep := d.keep, rate := d.rate, dry := s.dryRun, stress := true }
+      if d.keep then
+        { s with nextId := s.nextId + 1, accepted := s.accepted ++ [sp],
+                 decisions := s.decisions ++ [rec_],
+                 kept := lruAdd P s.cap s.kept t d.rate,
+                 missed := if decided s t then t :: s.missed else s.missed,
+                 mixed := if buffered s t then t :: s.mixed else s.mixed,
+                 out := s.out ++ [stressFwd s sp d.rate] }
+      else
+        { s with nextId := s.nextId + 1, accepted := s.accepted ++ [sp],
+                 decisions := s.decisions ++ [rec_],
+                 dropped := if s.dropped.contains t then s.dropped else t :: s.dropped,
+                 missed := if decided s t then t :: s.missed else s.missed,
+                 mixed := if buffered s t then t :: s.mixed else s.mixed,
+                 stressDropped := s.stressDropped ++ [sp] }
 
 def step (P : Params) (s : St) : Op → St
-  | .span t root client filt => arrive s t root client filt
+  | .span t root client filt => if s.stressed then stressArrive P s t root client filt else arrive s t root client filt
   | .decide t => decideT P s t
   | .drain => drainOne s
-  | .reload g dry => reloadCfg s g dry
+  | .reload g dry => reloadCfg P s g dry
+  | .resize c => resizeCfg P s c
+  | .stress on => setStress s on
 
-def run (P : Params) (dry : Bool) (ops : List Op) : St := ops.foldl (step P) (init dry)
+def run (P : Params) (dry : Bool) (ops : List Op) : St := ops.foldl (step P) (init dry P.cap)
 
 /-! ## Vocabulary of the property statements -/
 
@@ -227,14 +308,20 @@ def outIds (s : St) : List Nat := s.out.map (·.sid)
 def timesForwarded (s : St) (i : Nat) : Nat := (outIds s).count i
 
 /-- C01's "the trace's decision is still remembered": no arrival of `t` after its decision missed
-the record, and the dropped filter never claimed `t` without a recorded drop. -/
+the record (eviction from the kept LRU by newer decisions or by a shrinking `Resize`, a drop the
+filter forgot), and the dropped filter never claimed `t` without a recorded drop. -/
 def Remembered (s : St) (t : Nat) : Prop := t ∉ s.missed ∧ t ∉ s.falsePos
+
+/-- C01's "stress relief does not switch on while the trace is buffered": the stress path never
+made a decision for `t` while spans of `t` were buffered. -/
+def StressConstant (s : St) (t : Nat) : Prop := t ∉ s.mixed
 
 /-- `t` has left the collector's queues: not buffered and not waiting in `tracesToSend` -/
 def Quiescent (s : St) (t : Nat) : Prop :=
   (∀ sp ∈ s.buf, sp.trace ≠ t) ∧ (∀ sd ∈ s.toSend, sd.trace ≠ t)
 
 instance (s : St) (t : Nat) : Decidable (Remembered s t) := by unfold Remembered; infer_instance
+instance (s : St) (t : Nat) : Decidable (StressConstant s t) := by unfold StressConstant; infer_instance
 instance (s : St) (t : Nat) : Decidable (Quiescent s t) := by unfold Quiescent; infer_instance
 
 end Refinery.Model.Collector
